@@ -14,25 +14,41 @@ def main():
     kinds = ["rel", "asan"]
     vlib.build_lib("rel")
     print(vlib.gen_consts().strip())
-    ok, out = vlib.coq_make()
+    # build what the registered property checks rest on (Properties_<id>*.v, Extract_<slice>.v and their imports);
+    # files of slices that no registered check uses yet are not allowed to break the setup
+    import importlib
+    tops, used_slices = [], set()
+    for pf in sorted(glob.glob(os.path.join(vlib.VERIF, "tools", "props", "C[0-9][0-9].py"))):
+        pid = os.path.basename(pf)[:-3]
+        prop = importlib.import_module("props." + pid)
+        sl = [c.slice for c in prop.components() if getattr(c, "slice", "")]
+        used_slices |= set(sl)
+        tops += vlib.property_files(pid, sl)[0]
+    tops = sorted(set(tops))
+    ok, out = vlib.coq_make([t[:-2] + ".vo" for t in tops])
     print(out[-3000:])
     if not ok:
         print("SETUP: Coq development failed to build")
         return 1
-    for s in vlib.slices():
+    for s in sorted(used_slices):
         vlib.build_model(s)
     for k in kinds:
         vlib.build_lib(k)
     drivers = [os.path.basename(p)[:-2] for p in glob.glob(os.path.join(vlib.IMPL, "*.c"))]
     jobs = [(d, k) for d in drivers for k in kinds]
 
+    failed = []
+
     def b(j):
         try:
             vlib.build_driver(*j)
         except vlib.BuildError as e:
             print(e)
+            failed.append(j)
     with ThreadPoolExecutor(max_workers=vlib.NCPU) as ex:
         list(ex.map(b, jobs))
+    if failed:
+        print("SETUP: drivers that do not build: %s (checks using them will report it)" % failed)
     return 0
 
 
